@@ -320,9 +320,11 @@ pub fn check_cli(c: &CliCase) -> Result<bool, Violation> {
         )
         .sig(format!("cli-panic:{}", site)));
     }
-    if out.code != Some(0) && out.err().trim().is_empty() {
+    // a refusal must come with a message; a non-zero status next to regular output is not a refusal
+    // (exit statuses are not prescribed)
+    if out.code != Some(0) && out.err().trim().is_empty() && out.out().trim().is_empty() {
         return Err(Violation::new(
-            format!("rsbdd exited with {:?} without any message", out.code),
+            format!("rsbdd exited with {:?} without any message or output", out.code),
             cj,
         ));
     }
